@@ -96,6 +96,99 @@ fn run_with_log(wk: &Worker, spec: &RunSpec) -> (RunResult, Vec<Call>) {
     (r, parse_log(&log, &wk.dir.display().to_string()))
 }
 
+/// Environment answers on the INPUT side: every read() the run issues on a blk file (numbered by a fault-free run of the same
+/// tree) answered with at most one byte, at most half of the request, EINTR, or EIO - one deviation per run (bound 1), plus
+/// pairs of benign deviations at consecutive reads (bound 2). Short and interrupted reads are legal answers: exit 0 and the
+/// files of the undisturbed run on `reference_world`. EIO is a block that cannot be read: non-zero exit, no final-named file.
+pub fn read_deviations(rep: &mut Report, root: &std::path::Path, prop: &str, world: &World, reference_world: &World, label: &str, callbacks: &[&'static str]) {
+    let wk = Worker::new(root, 870);
+    let mut refs: BTreeMap<&str, BTreeMap<String, Vec<u8>>> = BTreeMap::new();
+    if let Err(m) = wk.materialise(reference_world) {
+        return rep.machinery(m);
+    }
+    for cb in callbacks {
+        let r = wk.run(&RunSpec::new("bitcoin", cb));
+        if !r.ok() {
+            return rep.machinery(format!("read deviations: reference run of {} failed", cb));
+        }
+        let mut files: BTreeMap<String, Vec<u8>> = r.files.iter().map(|(k, v)| (k.clone(), canon(k, v))).collect();
+        if files.is_empty() {
+            files.insert("<stdout>".into(), refmodel::run::strip_time(&r.stdout).replace(&wk.dir.display().to_string(), "<ROOT>").into_bytes());
+        }
+        refs.insert(*cb, files);
+    }
+    if let Err(m) = wk.materialise(world) {
+        return rep.machinery(m);
+    }
+    let rspec = |cb: &str, plan: &str| {
+        let mut s = RunSpec::new("bitcoin", cb);
+        s.env.push(("FAULTFS_RPREFIX".into(), format!("{}/blk", wk.data().display())));
+        s.env.push(("FAULTFS_LOG".into(), wk.dir.join("shim.log").display().to_string()));
+        if !plan.is_empty() {
+            s.env.push(("FAULTFS_RPLAN".into(), plan.into()));
+        }
+        s
+    };
+    // numbering runs (twice: the read sequence must be deterministic)
+    let mut plans: Vec<(&'static str, String, &'static str)> = Vec::new();
+    for cb in callbacks {
+        let count = |wk: &Worker| -> usize {
+            let _ = std::fs::remove_file(wk.dir.join("shim.log"));
+            let r = wk.run(&rspec(cb, ""));
+            if !r.ok() {
+                return 0;
+            }
+            std::fs::read_to_string(wk.dir.join("shim.log")).unwrap_or_default().lines().filter(|l| l.starts_with("R ")).count()
+        };
+        let (n1, n2) = (count(&wk), count(&wk));
+        if n1 == 0 || n1 != n2 {
+            return rep.machinery(format!("read deviations: {} issues {} / {} reads on blk files in two fault-free runs", cb, n1, n2));
+        }
+        rep.count(&format!("{}:blk-reads:{}", label, cb), n1 as u64);
+        for k in 0..n1 {
+            for act in ["SHORT1", "SHORTH", "EINTR"] {
+                plans.push((cb, format!("{}:{}", k, act), "benign"));
+            }
+            plans.push((cb, format!("{}:EIO", k), "input-fault"));
+            if k + 1 < n1 {
+                plans.push((cb, format!("{}:SHORT1,{}:SHORT1", k, k + 1), "benign"));
+                plans.push((cb, format!("{}:EINTR,{}:SHORTH", k, k + 1), "benign"));
+            }
+        }
+    }
+    drop(wk);
+    let parts = par_fold(
+        &plans,
+        || Report::new(prop, "e3a"),
+        |w, _i, (cb, plan, kind), acc| {
+            let wk = Worker::new(root, 900 + w);
+            if !wk.data().exists() {
+                if let Err(m) = wk.materialise(world) {
+                    return acc.machinery(m);
+                }
+            }
+            let mut spec = RunSpec::new("bitcoin", cb);
+            spec.env.push(("FAULTFS_RPREFIX".into(), format!("{}/blk", wk.data().display())));
+            spec.env.push(("FAULTFS_RPLAN".into(), plan.clone()));
+            let r = wk.run(&spec);
+            acc.states += 1;
+            acc.transitions += 1;
+            acc.count(&format!("{}:read-deviations:{}", label, kind), 1);
+            acc.nontrivial.insert(h8(format!("rd{}{}{}", label, cb, plan).as_bytes()));
+            let mut rr = r.clone();
+            if rr.files.is_empty() && r.ok() {
+                rr.files.insert("<stdout>".into(), refmodel::run::strip_time(&r.stdout).replace(&wk.dir.display().to_string(), "<ROOT>").into_bytes());
+            }
+            if let Some((sig, d)) = judge(&rr, &refs[cb], kind, false) {
+                acc.disagree(&format!("{}:read-deviation:{}", sig, plan.split(':').last().unwrap_or("")), format!("{} {} read plan {}: {}", label, cb, plan, d), replay_case(world, &spec, json!({"kind": kind}), &r, &wk.dir));
+            }
+        },
+    );
+    for p in parts {
+        rep.merge(p);
+    }
+}
+
 /// Judge one faulted / crashed run against the fault-free files.
 fn judge(r: &RunResult, reference: &BTreeMap<String, Vec<u8>>, kind: &str, crashed: bool) -> Option<(String, String)> {
     let finals: Vec<&String> = r.files.keys().filter(|k| k.ends_with(".csv")).collect();
@@ -456,6 +549,18 @@ pub fn run() -> Report {
     );
     for p in parts {
         rep.merge(p);
+    }
+    read_deviations(&mut rep, &root, "C10", &small, &small, "plain", &CBS);
+    {
+        // blocks larger than the reader's buffer (40 KiB and 100 KiB): one block = several read() calls
+        let btc = coin("bitcoin");
+        let mut cb = ChainBuilder::with_genesis(btc);
+        for (k, sz) in [40_000usize, 100_000, 300].iter().enumerate() {
+            let tx = Tx { version: 1, segwit: false, inputs: vec![TxIn::spend([0xee; 32], k as u32)], outputs: vec![TxOut { value: 5, script: vec![0x51; *sz] }, pay(9, 77)], locktime: 0 };
+            cb.push(vec![tx]);
+        }
+        let big = World::simple(btc, &cb.blocks, 0);
+        read_deviations(&mut rep, &root, "C10", &big, &big, "plain-big-blocks", &CBS);
     }
     // no fault at all: the first clause (exit 0 => every output file under its final name, no *.tmp) for every accepted shape
     // of the range options, including ranges that contain no block at all (an incremental dump when nothing new has arrived)
